@@ -28,8 +28,20 @@ Reasons(c) ==
   ELSE IF c.fault = "termcustom" THEN {"err:boom"}
   ELSE {"unregistered", "err:unregistered"}
 
-JudgeObserver(c, res, ms, notes) ==
+Prefix(c) == IF c.rel = "link" THEN "exit" ELSE "down"
+CountType(notes, t) == Cardinality({i \in 1..Len(notes) : notes[i].type = t})
+\* one consumer holding relations on several targets of the lost node: one notice per relation
+JudgeMany(c, res, ms, notes) ==
+  LET kinds == {c.kind} \cup {c.more[i] : i \in 1..Len(c.more)} IN
   IF res = "hang" \/ ms > RequestTimeoutMs + 1500 THEN "NoHang"
+  ELSE IF res # "ok" THEN "Established"
+  ELSE IF \E k \in kinds : CountType(notes, Prefix(c) \o k) # 1 THEN "NoticeOnce"
+  ELSE IF Len(notes) # Cardinality(kinds) THEN "NoticeOnce"
+  ELSE IF \E i \in 1..Len(notes) : notes[i].reason \notin {"noconnection", "kill", "shutdown", "normal"} THEN "NoticeReason"
+  ELSE ""
+JudgeObserver(c, res, ms, notes) ==
+  IF c.more # <<>> THEN JudgeMany(c, res, ms, notes)
+  ELSE IF res = "hang" \/ ms > RequestTimeoutMs + 1500 THEN "NoHang"
   ELSE IF c.when = "after" /\ res # "ok" THEN "Established"
   ELSE IF Len(notes) > 1 THEN "NoticeOnce"
   ELSE IF res = "ok" /\ Len(notes) # 1 THEN "NoticeOnce"
